@@ -6,7 +6,10 @@ Init == x = 0
 Next == UNCHANGED x
 Finite(f) == f # NaNCode
 Verdict(o) ==
-  IF o.obs.result # "ok" THEN "values-call-failed"
+  \* a request made through a reader whose read() starts failing during the call (o.fault = 1): raising is right; an array
+  \* that IS returned must be the documented one all the same (a failure must not pass for "no data")
+  IF "fault" \in DOMAIN o /\ o.fault = 1 /\ o.obs.result = "exception" THEN "ok"
+  ELSE IF o.obs.result # "ok" THEN "values-call-failed"
   ELSE IF "exact" \in DOMAIN o /\ o.exact = 0 THEN
        (IF o.bins = 0 THEN (IF PerBaseOK(o.kind, o.items, o.len, o.s, o.e, o.missing, o.oob, o.obs.out) THEN "ok" ELSE "per-base")
         ELSE IF Finite(o.missing) /\ Finite(o.oob) /\ ~ZoomModeOK(o.kind, o.items, o.len, o.s, o.e, o.bins, o.missing, o.oob, o.obs.out) THEN "default-mode-bin-outside-data-range"
